@@ -13,21 +13,30 @@ Record rfc_parts := mkRfc { r_year : Z; r_month : Z; r_day : Z; r_hour : Z; r_mi
                             r_off_sign : Z; r_off_hour : Z; r_off_minute : Z }.   (* Z = +00:00 *)
 
 (* date-fullyear "-" date-month "-" date-mday "T" time-hour ":" time-minute ":" time-second [time-secfrac] time-offset *)
+Definition rfc_zone (z : text) : option (Z * Z * Z) :=       (* sign, hour, minute *)
+  match z with
+  | [z0] => if z0 =? 90 then Some (1, 0, 0) else None
+  | [sg; a; b; col; c; d] =>
+      if ((sg =? 43) || (sg =? 45)) && (col =? 58) && forallb dig [a; b; c; d]
+      then Some (if sg =? 43 then 1 else -1, two a b, two c d) else None
+  | _ => None
+  end.
 Definition rfc_split (s : text) : option rfc_parts :=
   match s with
-  | y1 :: y2 :: y3 :: y4 :: 45 :: m1 :: m2 :: 45 :: d1 :: d2 :: 84 :: h1 :: h2 :: 58 :: i1 :: i2 :: 58 :: s1 :: s2 :: rest =>
-      if forallb dig [y1; y2; y3; y4; m1; m2; d1; d2; h1; h2; i1; i2; s1; s2] then
-        let mk frac sign oh om := Some (mkRfc (((y1 - 48) * 10 + (y2 - 48)) * 100 + two y3 y4) (two m1 m2) (two d1 d2) (two h1 h2) (two i1 i2) (two s1 s2) frac sign oh om) in
+  | y1 :: y2 :: y3 :: y4 :: c1 :: m1 :: m2 :: c2 :: d1 :: d2 :: c3 :: h1 :: h2 :: c4 :: i1 :: i2 :: c5 :: s1 :: s2 :: rest =>
+      if forallb dig [y1; y2; y3; y4; m1; m2; d1; d2; h1; h2; i1; i2; s1; s2]
+         && (c1 =? 45) && (c2 =? 45) && (c3 =? 84) && (c4 =? 58) && (c5 =? 58) then
         let zone (frac z : text) :=
-          match z with
-          | [90] => mk frac 1 0 0
-          | sg :: a :: b :: 58 :: c :: d :: [] =>
-              if ((sg =? 43) || (sg =? 45)) && forallb dig [a; b; c; d] then mk frac (if sg =? 43 then 1 else -1) (two a b) (two c d) else None
-          | _ => None end in
+          match rfc_zone z with
+          | Some (sign, oh, om) =>
+              Some (mkRfc (((y1 - 48) * 10 + (y2 - 48)) * 100 + two y3 y4) (two m1 m2) (two d1 d2) (two h1 h2) (two i1 i2) (two s1 s2) frac sign oh om)
+          | None => None end in
         match rest with
-        | 46 :: tl => let frac := fst (span_digits tl) in let z := snd (span_digits tl) in
-                      match frac with [] => None | _ => zone frac z end
-        | _ => zone [] rest
+        | c :: tl => if c =? 46
+                     then (let frac := fst (span_digits tl) in let z := snd (span_digits tl) in
+                           match frac with [] => None | _ => zone frac z end)
+                     else zone [] rest
+        | [] => None
         end
       else None
   | _ => None
